@@ -291,51 +291,39 @@ impl<'arena> Diagnostics<'arena> {
 
     #[inline]
     fn line_col_from_span(&self, src: &str, start: usize) -> (usize, usize, usize, usize) {
-        let line_starts = self.compute_line_starts(src);
-        let line_idx = line_starts.binary_search(&start).unwrap_or_else(|x| x - 1);
-        let line_start = line_starts[line_idx];
-        let line_end = if line_idx + 1 < line_starts.len() {
-            line_starts[line_idx + 1] - 1
-        } else {
-            src.len()
-        };
+        // Walk the line starts up to `start` instead of building the whole table: this runs for
+        // every diagnostic and label, and one table per call (8 bytes per source byte) used up
+        // the arena on inputs with many diagnostics.
+        let haystack = src.as_bytes();
+        let mut line_idx = 0;
+        let mut line_start = 0;
+        let mut next = Self::next_line_start(haystack, 0);
+        while let Some(next_start) = next {
+            if next_start > start {
+                break;
+            }
+            line_idx += 1;
+            line_start = next_start;
+            next = Self::next_line_start(haystack, next_start);
+        }
+        let line_end = next.map_or(src.len(), |next_start| next_start - 1);
         let col = Self::visual_col(&src[line_start..start]) + 1;
         (line_idx + 1, col, line_start, line_end)
     }
 
-    fn compute_line_starts(&self, src: &str) -> Vec<usize, &'arena Arena> {
-        let haystack = src.as_bytes();
+    /// Start of the line after the first terminator at or after `offset`: '\n', '\r\n' (Windows)
+    /// or a lone '\r'.
+    fn next_line_start(haystack: &[u8], offset: usize) -> Option<usize> {
         let len = haystack.len();
-        let mut starts = Vec::with_capacity_in(len, self.arena);
-        starts.push(0);
-
-        let mut offset = 0;
-        while offset < len {
-            // find either '\n' or ('\r' for windows)
-            let idx = memchr2(b'\r', b'\n', haystack, offset);
-            if idx == len {
-                break;
-            }
-
-            // handle '\r' (Windows case)
-            if haystack[idx] == b'\r' {
-                if idx + 1 < len && haystack[idx + 1] == b'\n' {
-                    starts.push(idx + 2);
-                    offset = idx + 2;
-                    continue;
-                }
-                // lone '\r' as a newline
-                starts.push(idx + 1);
-                offset = idx + 1;
-                continue;
-            }
-
-            // plain '\n' (Unix case)
-            starts.push(idx + 1);
-            offset = idx + 1;
+        let idx = memchr2(b'\r', b'\n', haystack, offset);
+        if idx == len {
+            return None;
         }
-
-        starts
+        if haystack[idx] == b'\r' && idx + 1 < len && haystack[idx + 1] == b'\n' {
+            Some(idx + 2)
+        } else {
+            Some(idx + 1)
+        }
     }
 
     // We calculate the widest line number so the gutter always lines up,
